@@ -143,7 +143,24 @@ def run_leg(prop, leg, tier, seed, log):
                     if time.time() > deadline:
                         p.kill()
                         p.wait()
-                        agg["harness_errors"].append("worker %s exceeded wall deadline" % p._tag)
+                        idx, in_sut = _progress_of(p._job)
+                        if in_sut and leg.get("hang_in_stackscope_is_violation") and idx is not None and idx >= 0:
+                            # stuck inside a call into stackscope (a restarted worker whose own
+                            # watchdog had not fired yet when the leg's time was up)
+                            agg["crashes"] += 1
+                            agg["violations"].append(
+                                {
+                                    "kind": "process_hang",
+                                    "message": "worker stuck inside a call into stackscope during run %s when the leg's time was up" % idx,
+                                    "detail": {"index": idx, "kind": "hang", "in_stackscope_call": True},
+                                    "index": idx,
+                                    "tape": None,
+                                    "case": {},
+                                    "subprocess_only": True,
+                                }
+                            )
+                        else:
+                            agg["harness_errors"].append("worker %s exceeded wall deadline" % p._tag)
                         pending.remove(p)
                         _close(p)
                     continue
@@ -158,12 +175,7 @@ def run_leg(prop, leg, tier, seed, log):
                     _merge(agg, res)
                     continue
                 # died without a result: crash (signal) or hang (faulthandler exit)
-                idx = None
-                try:
-                    with open(job["progress"], "rb") as f:
-                        idx = struct.unpack("<q", f.read(8))[0]
-                except Exception:
-                    pass
+                idx, in_sut = _progress_of(job)
                 hang = "Timeout (" in (err or "")
                 kind = "hang" if hang else "crash"
                 agg["crashes"] += 1
@@ -174,6 +186,12 @@ def run_leg(prop, leg, tier, seed, log):
                     "stderr_tail": (err or "")[-3000:],
                 }
                 flag = leg.get("hang_is_violation") if hang else leg.get("crash_is_violation")
+                if hang and not flag and leg.get("hang_in_stackscope_is_violation") and in_sut:
+                    # the run was inside a call into stackscope when the watchdog fired: an extraction
+                    # that does not return (legs whose worlds are tiny opt in: there a run takes
+                    # milliseconds, the watchdog minutes)
+                    flag = True
+                    info["in_stackscope_call"] = True
                 if flag and idx is not None and idx >= 0:
                     agg["violations"].append(
                         {
@@ -203,6 +221,21 @@ def run_leg(prop, leg, tier, seed, log):
         shutil.rmtree(scratch, ignore_errors=True)
     agg["wall_s"] = time.time() - t0
     return agg
+
+
+def _progress_of(job):
+    """(index of the run a worker was in, whether it was inside a call into the code under test)."""
+    idx = None
+    in_sut = False
+    try:
+        with open(job["progress"], "rb") as f:
+            raw = f.read(16)
+            idx = struct.unpack("<q", raw[:8])[0]
+            if len(raw) >= 16:
+                in_sut = struct.unpack("<q", raw[8:16])[0] == 1
+    except Exception:
+        pass
+    return idx, in_sut
 
 
 def _merge(agg, res):
